@@ -243,4 +243,38 @@ def run_item(item):
             d |= compare_batched(ns, fname, ns["state"], ns["parameter"], pts, res, key, fail)
         if len(d) >= 2:
             res["nontrivial"] += 1
+        # the shape option: a module generated with shape=multiple, called on the batch, must agree column by column with a module
+        # generated with shape=single called on each column (and both with the default dynamic module checked above)
+        if key.startswith(("rate|", "deg|")):
+            try:
+                ode_ = drive.load(text)
+                nm = drive.exec_py(drive.py_code(ode_, scheme=list(models.SCHEMES), stiff_states=list(ref.states), shape="multiple"))
+                n1 = drive.exec_py(drive.py_code(ode_, scheme=list(models.SCHEMES), stiff_states=list(ref.states), shape="single"))
+            except Exception as ex:
+                fail("shape-option-codegen-raises", f"{key}: {ex!r}"[:200])
+                continue
+            sub = pts[:: max(1, len(pts) // 40)][:40]
+            S = numpy.zeros((len(ns["state"]), len(sub)))
+            P = numpy.zeros((len(ns["parameter"]), len(sub)))
+            for j, pt in enumerate(sub):
+                for n_, i_ in ns["state"].items():
+                    S[i_, j] = pt[n_]
+                for n_, i_ in ns["parameter"].items():
+                    P[i_, j] = pt[n_]
+            t0 = sub[0]["t"]
+            for fname in FUNCS:
+                is_s = fname not in ("rhs", "monitor_values")
+                try:
+                    with numpy.errstate(all="ignore"):
+                        out = numpy.asarray(nm[fname](S.copy(), t0, 0.125, P) if is_s else nm[fname](t0, S.copy(), P), dtype=float)
+                        for j in range(len(sub)):
+                            col = numpy.asarray(n1[fname](S[:, j].copy(), t0, 0.125, P[:, j].copy()) if is_s else n1[fname](t0, S[:, j].copy(), P[:, j].copy()), dtype=float)
+                            res["evaluations"] += 1
+                            a = out[:, j]
+                            same = (a == col) | (numpy.isnan(a) & numpy.isnan(col)) | (numpy.abs(a - col) <= 1e-12 * numpy.maximum(1.0, numpy.abs(col)))
+                            if a.shape != col.shape or not same.all():
+                                fail("shape-multiple-vs-single", f"{key}: {fname} column {j}: shape=multiple gives {a.tolist()}, shape=single {col.tolist()} at {sub[j]}")
+                                break
+                except Exception as ex:
+                    fail("shape-option-call-raises", f"{key}: {fname}: {ex!r}"[:200])
     return res
